@@ -572,6 +572,21 @@ func c13Cases(c *h.Ctx) error {
 			if err := u.SetNodeID(k.Node); err != nil {
 				c.Fail("uuid_v1.UUIDv1.SetNodeID", "rejects-valid", err.Error(), smp)
 			}
+			// the text form asked for FIRST, on an object built by the same setters and never marshalled: String() and
+			// Marshal() are two routes to the same 128 bits, whichever is called first
+			{
+				w := &uuid_v1.UUIDv1{}
+				w.UUID.Variant = 0x8
+				w.Time = c13U64(k.TS)
+				w.SetClockSequence(uint16(k.CS))
+				w.SetNodeID(k.Node)
+				first := w.String()
+				wm, werr := w.Marshal()
+				c.Exec(2)
+				if werr == nil && bytes.Equal(wm, k.B) && !strings.EqualFold(first, c13Str(k.T)) {
+					c.Fail("uuid_v1.UUIDv1.String", "text-before-marshal", fmt.Sprintf("String() on a freshly assigned object gives %q; its Marshal() gives %x, i.e. %q", first, wm, c13Str(k.T)), smp)
+				}
+			}
 			m, err := u.Marshal()
 			c.Exec(1)
 			if err != nil {
